@@ -203,6 +203,48 @@ def r2_arithmetic(ctx):
 
 
 # --------------------------------------------------------------------------- R3
+BAR_A = 'TokenCategory.BARLINES == token.category'
+CORE_A = 'TokenCategory.is_child(child=token.category, parent=TokenCategory.CORE)'
+NF_A = 'nonempty(self._document.measure_start_tree_stages)'
+SIG_A = 'isinstance(token, SignatureToken)'
+BBOX_A = 'isinstance(token, BoundingBoxToken)'
+
+
+def cell_paths(ctx, run_):
+    """Every non-raising path through the cells of a row (the body of the column loop of Importer.run) that builds a node for
+    an ordinary token: (SymPath, token expression handed to add_node, path condition).  In the condition the tests about the
+    token of the cell are renamed to BAR_A / CORE_A / SIG_A / BBOX_A, whatever the token is called or how it was produced."""
+    col_loops = [n for n in walk_local(run_.node) if isinstance(n, ast.For) and 'enumerate(row)' in src(n.iter)]
+    if len(col_loops) != 1:
+        raise AnalysisError(f'{run_.loc}: the loop over the cells of a row is not recognised')
+    add = ctx.prog.func(f'{N.DOCUMENT}.MultistageTree.add_node')
+    out = []
+    for sp in symex.sym_paths(col_loops[0].body, limit=20000, fi=run_):
+        if sp.end == 'raise':
+            continue
+        adds = [e for e in sp.events if isinstance(e.expr, ast.Call) and isinstance(e.expr.func, ast.Attribute)
+                and e.expr.func.attr == 'add_node' and src(e.expr.func.value) == 'self._tree']
+        if not adds:
+            continue        # a header / spine-operator cell: handled by its own helper
+        # the token of this cell is whatever add_node received: atoms are phrased on it
+        tok = F.bind_args(adds[-1].expr, add, True).get('token')
+        if tok is None:
+            raise AnalysisError(f'{run_.loc}: the token handed to add_node is not recognised')
+        fm = F.fold(ctx, F._conj_node(sp), run_) if sp.conds else None
+        f_ = G._formula(fm) if fm is not None else ('const', True)
+        # built from the tree, never from text: symbolic names such as `error@exc` do not survive a re-parse
+        cat_node = ast.Attribute(value=clone(tok), attr='category', ctx=ast.Load())
+        tc = lambda m: ast.Attribute(value=ast.Name(id='TokenCategory', ctx=ast.Load()), attr=m, ctx=ast.Load())
+        ren = {G._cmp_atom(cat_node, ast.Eq(), tc('BARLINES'))[1]: BAR_A,
+               f'TokenCategory.is_child(child={src(cat_node)}, parent=TokenCategory.CORE)': CORE_A,
+               f'TokenCategory.is_child({src(cat_node)}, TokenCategory.CORE)': CORE_A,
+               f'isinstance({src(tok)}, SignatureToken)': SIG_A,
+               f'isinstance({src(tok)}, BoundingBoxToken)': BBOX_A}
+        f_ = G.map_atoms(f_, lambda a_: ('atom', ren[a_]) if a_ in ren else None)
+        out.append((sp, tok, f_, adds[-1]))
+    return out
+
+
 def r3_index(ctx):
     run_ = ctx.prog.func(f'{N.IMPORTER}.Importer.run')
     idx = 'self._document.measure_start_tree_stages'
@@ -234,48 +276,24 @@ def r3_index(ctx):
                   'the flag is cleared once per row before the cells and only ever set to True inside the row')
         # on every path through the cells of a row that builds a node for an ordinary token: the flag is set exactly when the
         # token is a barline, or core material while no measure is open yet (whatever the branching / helper structure)
-        import itertools
-        bar_a = 'TokenCategory.BARLINES == token.category'
-        core_a = 'TokenCategory.is_child(child=token.category, parent=TokenCategory.CORE)'
-        nf_a = f'nonempty({idx})'
+        bar_a, core_a, nf_a = BAR_A, CORE_A, NF_A
         expected = lambda v: v[bar_a] or (v[core_a] and not v[nf_a])
         bad, n_paths = [], 0
-        for lp in col_loops:
-            tokvar = None
-            for sp in symex.sym_paths(lp.body, limit=20000, fi=run_):
-                if sp.end == 'raise':
-                    continue
-                adds = [e for e in sp.events if isinstance(e.expr, ast.Call) and isinstance(e.expr.func, ast.Attribute)
-                        and e.expr.func.attr == 'add_node' and src(e.expr.func.value) == 'self._tree']
-                if not adds:
-                    continue        # a header / spine-operator cell: handled by its own helper
-                n_paths += 1
-                sets_flag = any(e.kind == 'assign' and e.target == [flag] and isinstance(e.expr, ast.Constant) and e.expr.value is True
-                                for e in sp.events)
-                # the token of this cell is whatever add_node received: atoms are phrased on it
-                tok = F.bind_args(adds[-1].expr, ctx.prog.func(f'{N.DOCUMENT}.MultistageTree.add_node'), True).get('token')
-                if tok is None:
-                    raise AnalysisError(f'{run_.loc}: the token handed to add_node is not recognised')
-                fm = F.fold(ctx, F._conj_node(sp), run_) if sp.conds else None
-                f_ = G._formula(fm) if fm is not None else ('const', True)
-                # built from the tree, never from text: symbolic names such as `error@exc` do not survive a re-parse
-                cat_node = ast.Attribute(value=clone(tok), attr='category', ctx=ast.Load())
-                tc = lambda m: ast.Attribute(value=ast.Name(id='TokenCategory', ctx=ast.Load()), attr=m, ctx=ast.Load())
-                ren = {G._cmp_atom(cat_node, ast.Eq(), tc('BARLINES'))[1]: bar_a,
-                       f'TokenCategory.is_child(child={src(cat_node)}, parent=TokenCategory.CORE)': core_a,
-                       f'TokenCategory.is_child({src(cat_node)}, TokenCategory.CORE)': core_a}
-                f_ = G.map_atoms(f_, lambda a_: ('atom', ren[a_]) if a_ in ren else None)
-                ats = G.atoms_of(f_)
-                named = [a_ for a_ in (bar_a, core_a, nf_a)]
-                free = [a_ for a_ in ats if a_ not in named]
-                if len(free) > 14:
-                    raise AnalysisError(f'{run_.loc}: too many conditions on a path through the cells of a row')
-                for bits in itertools.product([False, True], repeat=3):
-                    v = dict(zip(named, bits))
-                    possible = any(G.evaluate(f_, dict(v, **dict(zip(free, fb)))) for fb in itertools.product([False, True], repeat=len(free)))
-                    if possible and bool(expected(v)) != sets_flag:
-                        bad.append(('sets' if sets_flag else 'does not set') + f' the flag for bar={v[bar_a]}, core={v[core_a]}, '
-                                   f'measure open={v[nf_a]}')
+        for sp, tok, f_, _add in cell_paths(ctx, run_):
+            n_paths += 1
+            sets_flag = any(e.kind == 'assign' and e.target == [flag] and isinstance(e.expr, ast.Constant) and e.expr.value is True
+                            for e in sp.events)
+            ats = G.atoms_of(f_)
+            named = [a_ for a_ in (bar_a, core_a, nf_a)]
+            free = [a_ for a_ in ats if a_ not in named]
+            if len(free) > 14:
+                raise AnalysisError(f'{run_.loc}: too many conditions on a path through the cells of a row')
+            for bits in itertools.product([False, True], repeat=3):
+                v = dict(zip(named, bits))
+                possible = any(G.evaluate(f_, dict(v, **dict(zip(free, fb)))) for fb in itertools.product([False, True], repeat=len(free)))
+                if possible and bool(expected(v)) != sets_flag:
+                    bad.append(('sets' if sets_flag else 'does not set') + f' the flag for bar={v[bar_a]}, core={v[core_a]}, '
+                               f'measure open={v[nf_a]}')
         ctx.check(not bad and n_paths > 0, 'R3', at, run_.qualname, 'measure-start-guard',
                   f'a row opens a measure iff it holds a barline, or core material while no measure is open yet ({n_paths} paths through the cells)',
                   f'a path through the cells of a row {sorted(set(bad))[0] if bad else ""}: differs from `BARLINES or (under CORE and index empty)`')
